@@ -280,6 +280,10 @@ def check_seq(prop, tier):
     # 2b. the scale batch: big capacities, long histories, mass expiry, long ranges
     scale = vlib.scale_batch(rng, kinds, tier)
     all_execs = derived + execs + scale
+    if prop == "C02":
+        # the listed known finding KF1 is always exercised, so that its KNOWN-FINDING line is always printed
+        all_execs += [["cfg utmap 0 0 100 0 1 1 1 0 3 250", "ins 1 5 3 0", "find 1 0", "destroy"],
+                      ["cfg utset 0 1 100 0 1 1 1 0 3 250", "ins 2 1 3 0", "insr 3 0 1 3 1 0", "destroy"]]
     extra_cov["scale_batch_executions"] = len(scale)
 
     # 3. conformance of the real code under the slice of this property
